@@ -8,7 +8,7 @@ from collections.abc import MutableMapping, MutableSequence, MutableSet
 from typing import Any, Callable, Iterable, Optional
 
 from spec_classes.errors import FrozenInstanceError
-from spec_classes.types import MISSING, Attr
+from spec_classes.types import MISSING, UNCHANGED, Attr
 from spec_classes.utils.method_builder import MethodBuilder
 from spec_classes.utils.mutation import (
     _restore_attrs_on_error,
@@ -45,6 +45,15 @@ class InitMethod(MethodDescriptor):
     @staticmethod
     def init(spec_cls, self, **kwargs):
         instance_metadata = self.__spec_class__
+
+        # A keyword given as `UNCHANGED` is an omitted keyword (assigning it
+        # would be a no-op): the instance still gets its own copy of the
+        # attribute's default.
+        kwargs = {
+            key: value
+            for key, value in kwargs.items()
+            if value is not UNCHANGED or key not in instance_metadata.attrs
+        }
 
         # Initialise any non-local spec attributes via parent constructors
         if instance_metadata.owner is spec_cls:
